@@ -19,13 +19,16 @@ CHECKS = {
         note='Exact dyadic/integer data only; float64 caller arrays; Fourier resample and irrational grids not covered. '
              'Trusted: TLC, numpy.shares_memory, the driver projection.'),
     'C11': dict(
-        spec='H5Store.tla', design='4.6',
+        spec='H5Store.tla + TraceH5Store.tla', design='4.6, 11.2',
+        technique='TLA+ spec H5Store.tla checked with TLC; spec behaviours replayed into real HDF5 files (read back after every step); recorded traces of real writers (the repository tests + random workload) validated by TLC (TraceH5Store.tla)',
         text='H5Store.tla mirrors HDF5Writer.add stage by stage (counters, dataset growth, index writes, partial effects of '
              'rejected calls, append sessions); TLC checks LenIsAccepted, IndexInRange, RoundTrip and the action property '
              'RejectedAddIsInvisible over all histories of <=3 adds (<=2 quick) x 28 parameterisations x option families x '
              'failure placements x session splits; seeded simulations over 8 option families and 2304 add '
              'parameterisations are executed on the real writer and a flushed copy of the file is read back through '
-             'HDF5Reader after every step.',
+             'HDF5Reader after every step. In the other direction, the writers used by the repository test suite and by an '
+             'independent random workload are recorded from outside and each file life is validated by TLC against the '
+             'writer model (acceptance of every add, exact index entries).',
         note='Data carry tags; only rows addressed by the index table are compared (orphan rows / counters are '
              'representation). Trusted: TLC, h5py flush+copy snapshot, driver expectations (expected_event).'),
     'C12': dict(
